@@ -46,6 +46,8 @@ def run(ctx) -> None:
     from . import c09
 
     ctx.reuse("C01.record-volume", c09.validator_numbers)
+    # the R record names exactly the wells that were booked: ranges, volume and the exclusion list arrive in their slots
+    ctx.reuse("C01.pair-distribute", c09.r_slots)
     # records and tracking pair the same wells with the same volumes (no recycling of wells inside the labware), and the
     # Fluent numbering of troughs follows the trough predicate
     from . import c04, c08
